@@ -59,16 +59,18 @@ func (r *Router) route(s Sender, p stanza.Packet) {
 	}
 	iq, isIq := p.(*stanza.IQ)
 	if isIq {
-		r.IQResultRouteLock.RLock()
+		// Look the pending request up and claim it in one critical section: two responses with the same id
+		// arriving concurrently must not both get hold of the route (the second would write to a closed channel)
+		r.IQResultRouteLock.Lock()
 		route, ok := r.IQResultRoutes[iq.Id]
-		r.IQResultRouteLock.RUnlock()
+		if ok {
+			delete(r.IQResultRoutes, iq.Id)
+		}
+		r.IQResultRouteLock.Unlock()
 		if verifEnabled {
 			vpoint("route.lookup", "id", iq.Id, "found", ok)
 		}
 		if ok {
-			r.IQResultRouteLock.Lock()
-			delete(r.IQResultRoutes, iq.Id)
-			r.IQResultRouteLock.Unlock()
 			if verifEnabled {
 				vpoint("route.deleted", "id", iq.Id)
 			}
@@ -167,7 +169,10 @@ func (r *Router) NewIQResultRoute(ctx context.Context, id string) chan stanza.IQ
 			vpoint("iqroute.ctxdone", "id", id)
 		}
 		r.IQResultRouteLock.Lock()
-		delete(r.IQResultRoutes, id)
+		// Only remove our own route: a later request may have reused the id
+		if r.IQResultRoutes[id] == route {
+			delete(r.IQResultRoutes, id)
+		}
 		r.IQResultRouteLock.Unlock()
 	}()
 
@@ -210,7 +215,9 @@ type IQResultRoute struct {
 func NewIQResultRoute(ctx context.Context) *IQResultRoute {
 	return &IQResultRoute{
 		context: ctx,
-		result:  make(chan stanza.IQ),
+		// Room for the one response this channel ever carries: delivering it never blocks packet processing,
+		// even if the caller of SendIQ has stopped reading
+		result: make(chan stanza.IQ, 1),
 	}
 }
 
